@@ -12,7 +12,7 @@ O = "distance3d.gjk._gjk_original"
 def run(idx, rep, tier):
     rep.set_scope(scopes.scope(idx, "C09"))
     rep.explanation = (
-        "R-JOHNSONREC: every cofactor stored into BarycentricCoordinates.d is Johnson's recursion Delta_j(X+j) = sum_i Delta_i(X) y_i.(y_k - y_j), with every factor resolved through local definitions, negations, call-site parameters and results of the other coordinate methods. "
+        "R-JOHNSONOPT: the test in front of every sub-simplex of the main sub-algorithm expands (predicate methods inlined, De Morgan) to exactly Johnson's optimality condition. R-JOHNSONREC: every cofactor stored into BarycentricCoordinates.d is Johnson's recursion Delta_j(X+j) = sum_i Delta_i(X) y_i.(y_k - y_j), with every factor resolved through local definitions, negations, call-site parameters and results of the other coordinate methods. "
         "R-INFL: finite enumeration over all ordered pairs of collider classes (extracted from the source) and both sides: "
         "the radius is added to the inflation iff both sides use their specialised supports and that side's specialised "
         "support ignores the radius. R-DISPATCH: type codes and data-vector slots of the primitives variant agree between "
@@ -26,6 +26,7 @@ def run(idx, rep, tier):
     nesterov.r_tuplerole(idx, rep)
     johnson.r_johnson(idx, rep)
     johnson.r_johnsonrec(idx, rep)
+    johnson.r_johnsonopt(idx, rep)
     johnson.r_parallel(idx, rep)
     johnson.r_dottable(idx, rep)
     mink.r_mink(idx, rep, modules=[N1, N2, O], floor=4)
